@@ -181,10 +181,10 @@ func parseCmd(args []string) error {
 		snap := func() J {
 			r := J{}
 			p, where := guard(func() {
-				r["tree"] = projectMsg(msg)
+				r["len"] = int(msg.Len())
 				b, _ := msg.MarshalBinary()
 				r["reenc"] = byteList(b)
-				r["len"] = int(msg.Len())
+				r["tree"] = projectMsg(msg)
 			})
 			if p != nil {
 				r["panic"], r["where"] = p, where
